@@ -142,6 +142,11 @@ def run(ctx):
         runs.append(["zoo", [1, 2, 4, 8][r % 4], ctx.seed * 100 + r, [1, 10, 100, 400][(r // 4) % 4]])
     ctx.rules.append("fnode-zoo (oracle only): input_node -> limited function_node -> multifunction_node routing even/odd; continue_node with 1-4 predecessors; async_node with reserve_wait / gateway "
                      "results from foreign threads; an exception in a body: every produced value once on the right port, one firing per complete set of signals, wait_for_all not before release_wait, nothing starts after the throw")
+    for r in range(ctx.scale(6, 60)):
+        runs.append(["latedge", [2, 4, 8][r % 3], ctx.seed * 100 + r, [64, 300][r % 2], ctx.scale(150, 1500)])
+    ctx.rules.append("fnode-latedge (oracle only): senders that keep an untaken message offer it again when a successor registers later / again: input_node activated without successors + try_get then make_edge; "
+                     "input_node whose item a reserving join port rejected, then a second consumer attached; input_node -> rejecting serial function_node (edge flips push/pull, 150-1500 graphs); "
+                     "queue / buffer / priority_queue / sequencer / overwrite / write_once nodes filled before their first successor is attached: everything produced or put is processed exactly once")
     for r in range(ctx.scale(12, 150)):
         runs.append(["mtpull", [2, 4, 4, 8][r % 4], ctx.seed * 100 + r, 1500, 1 + (r // 4) % 2])
     ctx.rules.append("fnode-mtpull (oracle only): queue_node -> REJECTING function_node of concurrency 1/2; after a preparation in which the node's forwarder ran while the node was full, 1500 rounds put "
@@ -153,7 +158,7 @@ def run(ctx):
         t = (lines2 or ["no output"])[-1].split()
         if rc != 0 or len(t) < 6 or any(x != "0" for x in t[1::2]):
             bad += 1
-            what = ("function_node(limit %d) -> %d successors" % (args[4], args[5])) if args[0] == "mt" else ("queue_node -> rejecting function_node(concurrency %d), %d rounds" % (args[4], args[3])) if args[0] == "mtpull" else ("input / multifunction / continue / async nodes and an exception, %d items" % args[3]) if args[0] == "zoo" else (
+            what = ("function_node(limit %d) -> %d successors" % (args[4], args[5])) if args[0] == "mt" else ("queue_node -> rejecting function_node(concurrency %d), %d rounds" % (args[4], args[3])) if args[0] == "mtpull" else ("late / repeated successor registration (A: input_node try_get then make_edge, B: after a reserving join rejected, C: %d graphs input_node -> rejecting function_node of %d items, LATE: buffering nodes filled before make_edge)" % (args[4], args[3])) if args[0] == "latedge" else ("input / multifunction / continue / async nodes and an exception, %d items" % args[3]) if args[0] == "zoo" else (
                 "function_node broadcasting to [queueing, unlimited] plus a %s connected %s" % (["rejecting serial function_node", "full limiter_node"][args[5]], ["first", "in the middle", "last"][args[4]]))
             ctx.add(Finding("violation", "fnode-" + args[0], "%s, %d worker threads, seed %d: %s rc=%s" % (what, args[1], args[2], " ".join(t), rc), {"tie": "fnode-mt", "args": args}))
             if bad >= 3:
